@@ -521,6 +521,12 @@ fn grid_jobs(tier: Tier) -> Vec<Job> {
                             if inp.len() >= 2 && fd == 2 && threads <= 2 {
                                 let (a, b) = inp.split_at(inp.len() / 2);
                                 v.push(Job { set, mode: mode.into(), files: vec![a.to_vec(), b.to_vec()], batch, fd, threads, explore: false, cap_s: 60 });
+                                // an empty input file in first, middle and last position
+                                if threads == 1 && batch <= 2 {
+                                    v.push(Job { set, mode: mode.into(), files: vec![vec![], inp.clone()], batch, fd, threads, explore: false, cap_s: 60 });
+                                    v.push(Job { set, mode: mode.into(), files: vec![a.to_vec(), vec![], b.to_vec()], batch, fd, threads, explore: false, cap_s: 60 });
+                                    v.push(Job { set, mode: mode.into(), files: vec![inp.clone(), vec![]], batch, fd, threads, explore: false, cap_s: 60 });
+                                }
                             }
                         }
                     }
@@ -882,7 +888,7 @@ fn main() {
         tier,
         st,
         &rep,
-        "SCHED: the real cmd::map::run / cmd::set::run (merge.rs, util.rs, app.rs included by path) run in-process; every channel send/receive, spawn and thread exit is a scheduling point; for each listed (input, batch size, fd-limit, threads, merge mode) ALL interleavings are explored with happens-before state caching; in every complete execution: exit Ok, no deadlock, every temp file created once, output opens, verifies, conforms to the v3 format (independent decoder), content == model merge (sum/max/min per key over all rows; distinct lines for sets), bytes identical across all schedules; configuration grid under the default schedule: every row sequence of length <= 3 (thorough 4) over {a,1 a,2 b,1 b,2} (sets: {a,b,ab}) x batch 1..R x fd-limit 2..4 x threads 1..4 x 3 modes x one/two input files; many-batches family: 5..24 (thorough 40) rows with batch size 1 x fd-limit 2..4 x threads {1,2,4,8,16} with distinct keys, keys repeated in three batches (3 modes) and line sets; plus byte identity with the --sorted build and a library build for inputs without repeated keys; the real binary free-running on a subset. non-trivial = distinct happens-before states of explored configurations".into(),
+        "SCHED: the real cmd::map::run / cmd::set::run (merge.rs, util.rs, app.rs included by path) run in-process; every channel send/receive, spawn and thread exit is a scheduling point; for each listed (input, batch size, fd-limit, threads, merge mode) ALL interleavings are explored with happens-before state caching; in every complete execution: exit Ok, no deadlock, every temp file created once, output opens, verifies, conforms to the v3 format (independent decoder), content == model merge (sum/max/min per key over all rows; distinct lines for sets), bytes identical across all schedules; configuration grid under the default schedule: every row sequence of length <= 3 (thorough 4) over {a,1 a,2 b,1 b,2} (sets: {a,b,ab}) x batch 1..R x fd-limit 2..4 x threads 1..4 x 3 modes x one/two/three input files (incl. an empty file in first, middle and last position); many-batches family: 5..24 (thorough 40) rows with batch size 1 x fd-limit 2..4 x threads {1,2,4,8,16} with distinct keys, keys repeated in three batches (3 modes) and line sets; plus byte identity with the --sorted build and a library build for inputs without repeated keys; the real binary free-running on a subset. non-trivial = distinct happens-before states of explored configurations".into(),
         vec![
             "threads of merge.rs interact only through the channels (immutable Arcs otherwise); files are written by one batch and read only in later generations; checked by the unique-file-name trace".into(),
             "two prefixes with equal per-thread histories (incl. identities of received messages) are the same Mazurkiewicz trace and have the same futures".into(),
